@@ -3,15 +3,15 @@ import json
 import os
 from .. import core
 
-DEV = dict(D_NoRestoreMw=False, D_UseLeaksToParent=False, D_RouteMwBeforeGroup=False, D_EmptyCheckBeforeTrim=False)
-GRP = {"path", "middleware", "chain", "routes", "registration-panic", "trace"}
+DEV = dict(D_GroupAliasesCallerList=False, D_NoRestoreMw=False, D_UseLeaksToParent=False, D_RouteMwBeforeGroup=False, D_EmptyCheckBeforeTrim=False)
+GRP = {"path", "middleware", "chain", "routes", "registration-panic", "trace", "caller-list"}
 
 
 def rcfg(acts, depth, routes, emit=True, **dev):
     c = dict(DEV)
     c.update(dev)
     c.update(MaxActs=acts, MaxDepth=depth, MaxRoutes=routes)
-    return core.cfg(constants=c, invariants=["RoutesAgree", "NoResidue"] + (["Emit"] if emit else []))
+    return core.cfg(constants=c, invariants=["RoutesAgree", "NoResidue", "CallerListIntact"] + (["Emit"] if emit else []))
 
 
 def explore(chk, acts, depth, routes, only=GRP):
@@ -62,7 +62,7 @@ def run(chk):
         explore(chk, 4, 2, 2)
     chk.exhaustive = True
     recorded(chk, 80 if thorough else 10)
-    negs(chk, ["D_NoRestoreMw", "D_UseLeaksToParent", "D_RouteMwBeforeGroup"] if thorough else ["D_NoRestoreMw"])
+    negs(chk, ["D_GroupAliasesCallerList", "D_NoRestoreMw", "D_UseLeaksToParent", "D_RouteMwBeforeGroup"] if thorough else ["D_GroupAliasesCallerList", "D_NoRestoreMw"])
 
 
 def replay(doc):
